@@ -1,4 +1,5 @@
 import ArtapModel.Proofs.Crash
+import ArtapModel.Proofs.CrashParallel
 import Mathlib.Data.List.Induction
 /-!
 # C11 — A crash at any moment leaves the SQLite store readable and consistent
@@ -167,7 +168,35 @@ theorem sync_last_wins (tr : List (Ev B)) (c id : Nat) (b : B)
   rw [hf]
   exact applyAll_single _ c id b
 
+/-- **Parallel evaluation and a crash at any moment** (composition with C07): take any batch, any problem and
+any schedule of the worker threads (`Conc.run`), let every step that writes a row do so on a connection of its
+own followed by its commit, and let the process die after any number `k` of the resulting store events.  Every
+row a reader then finds belongs to a design of the batch and is that design's complete *final* row – vector,
+`costs = objective(vector)`, signed costs, marker, state EVALUATED – never an intermediate one. -/
+theorem parallel_crash_rows_final (P : Conc.Prob) (ds : List Conc.Design) (σ : List Nat) (k id : Nat) (b : Conc.Row)
+    (h : (id, b) ∈ crashAt k (CrashPar.traceOf P σ (Conc.init ds) 0)) :
+    ∃ (hid : id < ds.length), some b = C07.finalRow P ds[id] ∧
+      b.costs = P.obj b.vec ∧ b.state = Conc.St.evaluated := by
+  obtain ⟨c, hu, _⟩ := crash_rows_complete k _ id b h
+  obtain ⟨hid, hb⟩ := CrashPar.upsert_in_trace P ds σ (Conc.init ds) 0 (CrashPar.reach_init P ds) c id b
+    (List.mem_of_mem_take hu)
+  refine ⟨hid, hb, ?_⟩
+  unfold C07.finalRow at hb
+  split at hb
+  · cases hb
+  · rename_i hne
+    simp only [Option.some.injEq] at hb
+    subst hb
+    simp [C07.finalDesign, hne]
+
 /-! ## Non-vacuity -/
+
+-- the interleaved schedule of C07's example: after all events both rows are there, after 11 events only one
+example : ((crashAt 100 (CrashPar.traceOf C07.exP C07.exSched (Conc.init C07.exBatch) 0)).map (·.1)) = [0, 1] := by
+  decide +kernel
+example : ((crashAt 11 (CrashPar.traceOf C07.exP C07.exSched (Conc.init C07.exBatch) 0)).map (·.1)) = [0] := by
+  decide +kernel
+
 
 def exTrace : List (Ev Nat) :=
   [.other, .upsert 1 7 100, .commit 1, .other, .upsert 2 8 200, .upsert 3 7 300, .commit 3, .commit 2]
